@@ -125,16 +125,22 @@ def run_v(res, unit_files, rlimit=None, filter_units=None):
         tags = []
         unit = None
         in_specs = False
-        for s in spans:
-            rel = _rel(root1, s["file_name"])
-            if rel.startswith("src/verif_specs"):
-                in_specs = True
-            t = ov1.tag_at(rel, s["byte_start"], s["byte_end"])
-            if t:
-                tags.append(t)
-            u = ov1.unit_at(rel, s["byte_start"])
-            if u and s.get("is_primary"):
-                unit = u
+        for s0 in spans:
+            # a span inside a macro expansion (panic!/assert!/debug_assert! from core) is attributed through its call sites
+            chain, e_ = [s0], s0.get("expansion")
+            while e_ and len(chain) < 12:
+                chain.append(e_["span"])
+                e_ = e_["span"].get("expansion")
+            for s in chain:
+                rel = _rel(root1, s["file_name"])
+                if rel.startswith("src/verif_specs"):
+                    in_specs = True
+                t = ov1.tag_at(rel, s["byte_start"], s["byte_end"])
+                if t:
+                    tags.append(t)
+                u = ov1.unit_at(rel, s["byte_start"])
+                if u and s0.get("is_primary") and unit is None:
+                    unit = u
         code = (d.get("code") or {}).get("code") if d.get("code") else None
         rendered = d.get("rendered") or msg
         if code == "E0080" and any(".const." in t for t in tags):
